@@ -134,7 +134,7 @@ func runC07(c *Ctx) {
 	}
 
 	c.MustCut("R07.5", "Destroy ⊣ {Teardown ready}", body, p.CallTo(gDestroy),
-		CutSpec{Edges: FactEdge("true(call:"+gTeardown+"(*)#0)", "true(*var:ready)")}, 1)
+		CutSpec{Edges: FactEdge("true(call:"+gTeardown+"(*)#0)", "true(*var:bool)", "true(*var:bool#*)")}, 1)
 
 	if c.NeedFunc("R07.5", f, "cleanupOutputs") {
 		n := 0
@@ -184,8 +184,8 @@ func runC07(c *Ctx) {
 		c.MustCut("R07.7", "Destroy ⊣ {Teardown ready}", loop, p.CallTo(gDestroy),
 			CutSpec{Edges: FactEdge("true(call:" + gTeardown + "(*)#0)")}, 1)
 		c.mustCutEach("R07.7", "return nil", fin, ReturnsNilConst(0), 1, map[string]EdgePred{
-			"no pending teardown": FactEdge("le(*free:var:inTearDown,const:0)", "le(*var:inTearDown,const:0)"),
-			"no error":            FactEdge("nil(*free:var:multiErr)", "nil(*var:multiErr)"),
+			"no pending teardown": FactEdge("le(*free:var:int,const:0)", "le(*var:int,const:0)"),
+			"no error":            FactEdge("nil(*free:var:error)", "nil(*var:error)", "nil(*free:var:error#*)", "nil(*var:error#*)"),
 		})
 	}
 
